@@ -6,6 +6,10 @@ import (
 	"go/constant"
 	"go/token"
 	"go/types"
+	"os"
+	"path/filepath"
+	"reflect"
+	"regexp"
 	"sort"
 	"strings"
 
@@ -244,6 +248,15 @@ func sharedReqNotMutated(c *an.Ctx, rule string) {
 							al[v], changed = true, true
 						}
 					}
+				case *ssa.UnOp:
+					// a parameter that a closure captures lives in a cell: loads of the cell are the parameter
+					if cell, ok := x.X.(*ssa.Alloc); ok && x.Op == token.MUL {
+						for _, r := range *cell.Referrers() {
+							if st, ok := r.(*ssa.Store); ok && st.Addr == ssa.Value(cell) && al[st.Val] {
+								al[v], changed = true, true
+							}
+						}
+					}
 				}
 			})
 		}
@@ -258,6 +271,17 @@ func sharedReqNotMutated(c *an.Ctx, rule string) {
 				case n == "(*github.com/miekg/dns.Msg).SetEdns0" && ai == 0,
 					strings.HasPrefix(n, "(*github.com/miekg/dns.OPT).Set") && ai == 0:
 					res = true
+				case cc.IsInvoke():
+					// every implementation in the repository of the interface method (the forwarder's upstreams)
+					iface, _ := cc.Value.Type().Underlying().(*types.Interface)
+					for _, f := range c.AllFns {
+						if iface == nil || f.Signature.Recv() == nil || f.Name() != cc.Method.Name() || c.IsTestFile(f.Pos()) {
+							continue
+						}
+						if types.Implements(f.Signature.Recv().Type(), iface) && mutates(f, ai+1) {
+							res = true
+						}
+					}
 				default:
 					if f := an.StaticCallee(call); f != nil && c.InRepo(f) && mutates(f, ai) {
 						res = true
@@ -4384,6 +4408,7 @@ func classSweep(c *an.Ctx, prop string) {
 	add("locks-released", sharedLockReleased(c, rule, pk...))
 	add("nil-receivers", sharedNilReceiverPath(c, rule, pk...))
 	add("sends-under-lock", sharedSendsUnderLock(c, rule, pk...))
+	add("error-appends", sharedAppendResultUsed(c, rule, pk...))
 	n := 0
 	for _, p := range pk {
 		n += sharedNoShallowCopy(c, rule, p, "github.com/miekg/dns.Msg")
@@ -6012,8 +6037,22 @@ func sharedContextConstructors(c *an.Ctx, rule string, prefixes ...string) (exam
 				}
 			}
 		})
+		// the context handed out is made by this call: it is not a captured value (one context shared by every
+		// caller ends for all of them with the first cancel)
+		for _, r := range an.Returns(fn) {
+			if len(r.Results) != 2 {
+				continue
+			}
+			v := r.Results[0]
+			if ld, ok := v.(*ssa.UnOp); ok && ld.Op == token.MUL {
+				v = ld.X
+			}
+			if fv, ok := v.(*ssa.FreeVar); ok {
+				bad = fmt.Sprintf("the captured context %s is handed out at %s", fv.Name(), c.Pos(r.Pos()))
+			}
+		}
 		c.Check(bad == "", rule, an.FnKey(fn)+" derives every context from the same parent", fn.Pos(), "the constructor closure does not assign to what it captured",
-			bad+": each new context becomes a child of the previous one and inherits its deadline")
+			bad+": the contexts are not independent of each other (a chained context inherits the previous deadline; a shared one is cancelled for everybody by the first caller that is done)")
 	}
 	return examined
 }
@@ -6297,32 +6336,7 @@ func sharedLockReleased(c *an.Ctx, rule string, prefixes ...string) (examined in
 // such test, no field access through the receiver and no such method call is
 // reachable.  Returns the number of nil tests of a receiver examined.
 func sharedNilReceiverPath(c *an.Ctx, rule string, prefixes ...string) (examined int) {
-	// derefs reports whether fn reads a field of its receiver on some path that no nil test of the receiver dominates
-	derefsUnguarded := func(fn *ssa.Function) bool {
-		if fn == nil || fn.Blocks == nil || fn.Signature.Recv() == nil || len(fn.Params) == 0 {
-			return false
-		}
-		recv := fn.Params[0]
-		bad := false
-		an.Instrs(fn, func(in ssa.Instruction) {
-			fa, ok := in.(*ssa.FieldAddr)
-			if !ok || fa.X != ssa.Value(recv) {
-				return
-			}
-			guarded := false
-			for _, e := range an.DominatingConds(fa.Block()) {
-				if b, ok := e.If.Cond.(*ssa.BinOp); ok && (b.Op == token.EQL || b.Op == token.NEQ) {
-					if (b.X == ssa.Value(recv) && an.IsNilConst(b.Y) || b.Y == ssa.Value(recv) && an.IsNilConst(b.X)) && (b.Op == token.EQL) != e.Branch {
-						guarded = true
-					}
-				}
-			}
-			if !guarded {
-				bad = true
-			}
-		})
-		return bad
-	}
+	derefsUnguarded := receiverDerefsUnguarded
 	for _, fn := range c.AllFns {
 		if fn.Blocks == nil || c.IsTestFile(fn.Pos()) || !c.Prog.InRepo(fn) || !hasAnyPrefix(an.FnKey(fn), prefixes) || fn.Signature.Recv() == nil || len(fn.Params) == 0 {
 			continue
@@ -6507,6 +6521,352 @@ func sharedSendsUnderLock(c *an.Ctx, rule string, prefixes ...string) (examined 
 				c.Inf(rule, fmt.Sprintf("%s: channel send %d is made with a mutex held", an.FnKey(fn), i), s.Pos(),
 					"the send at %s can block while %s is held: whoever needs that mutex (Close of the same object, for one) waits for the channel's receiver", c.Pos(s.Pos()), held)
 			}
+		})
+	}
+	return examined
+}
+
+// receiverDerefsUnguarded reports whether fn reads a field of its receiver on
+// some path that no nil test of the receiver dominates.
+func receiverDerefsUnguarded(fn *ssa.Function) bool {
+	if fn == nil || fn.Blocks == nil || fn.Signature.Recv() == nil || len(fn.Params) == 0 {
+		return false
+	}
+	recv := fn.Params[0]
+	bad := false
+	an.Instrs(fn, func(in ssa.Instruction) {
+		fa, ok := in.(*ssa.FieldAddr)
+		if !ok || fa.X != ssa.Value(recv) {
+			return
+		}
+		if !nonNilAt(recv, fa.Block()) {
+			bad = true
+		}
+	})
+	return bad
+}
+
+// nonNilAt: a test of v against nil dominates block b on its non-nil edge.
+func nonNilAt(v ssa.Value, b *ssa.BasicBlock) bool {
+	for _, e := range an.DominatingConds(b) {
+		if bo, ok := e.If.Cond.(*ssa.BinOp); ok && (bo.Op == token.EQL || bo.Op == token.NEQ) {
+			if (bo.X == v && an.IsNilConst(bo.Y) || bo.Y == v && an.IsNilConst(bo.X)) && (bo.Op == token.EQL) != e.Branch {
+				return true
+			}
+		}
+	}
+	return false
+}
+
+// rejectsNilReceiver: the method tests its receiver for nil and returns a
+// non-nil error (its last result) on that edge.
+func rejectsNilReceiver(fn *ssa.Function) bool {
+	if fn == nil || fn.Blocks == nil || fn.Signature.Recv() == nil || len(fn.Params) == 0 {
+		return false
+	}
+	recv := ssa.Value(fn.Params[0])
+	n := fn.Signature.Results().Len()
+	if n == 0 || fn.Signature.Results().At(n-1).Type().String() != "error" {
+		return false
+	}
+	for _, b := range fn.Blocks {
+		ifi, ok := b.Instrs[len(b.Instrs)-1].(*ssa.If)
+		if !ok {
+			continue
+		}
+		bo, ok := ifi.Cond.(*ssa.BinOp)
+		if !ok || bo.Op != token.EQL && bo.Op != token.NEQ || !(bo.X == recv && an.IsNilConst(bo.Y) || bo.Y == recv && an.IsNilConst(bo.X)) {
+			continue
+		}
+		to := an.CondEdge{If: ifi, Branch: bo.Op == token.EQL}.To()
+		ret, ok := to.Instrs[len(to.Instrs)-1].(*ssa.Return)
+		if !ok || len(ret.Results) != n {
+			continue
+		}
+		if r := ret.Results[n-1]; !an.IsNilConst(r) {
+			if _, isPhi := r.(*ssa.Phi); !isPhi {
+				return true
+			}
+		}
+	}
+	return false
+}
+
+// sharedDecodedElementsNilSafe: encoding/json leaves a nil pointer in a slice
+// of pointers for every `null` element of the document.  Wherever an element
+// of a JSON-decoded []*T field (a field with a json tag) is used, either a nil
+// test of the element, or the "no error" edge of a method of the element that
+// rejects a nil receiver with an error, dominates every read of the element's
+// fields and every call of a method that reads them unguarded.  Returns the
+// number of element uses examined.
+func sharedDecodedElementsNilSafe(c *an.Ctx, rule string, prefixes ...string) (examined int) {
+	for _, fn := range c.AllFns {
+		if fn.Blocks == nil || c.IsTestFile(fn.Pos()) || !c.Prog.InRepo(fn) || !hasAnyPrefix(an.FnKey(fn), prefixes) {
+			continue
+		}
+		k := an.FnKey(fn)
+		an.Instrs(fn, func(in ssa.Instruction) {
+			ld, ok := in.(*ssa.UnOp)
+			if !ok || ld.Op != token.MUL {
+				return
+			}
+			ia, ok := ld.X.(*ssa.IndexAddr)
+			if !ok {
+				return
+			}
+			sl, ok := ia.X.(*ssa.UnOp)
+			if !ok || sl.Op != token.MUL {
+				return
+			}
+			fa, ok := sl.X.(*ssa.FieldAddr)
+			if !ok {
+				return
+			}
+			st, ok := fa.X.Type().Underlying().(*types.Pointer).Elem().Underlying().(*types.Struct)
+			if !ok || !strings.Contains(st.Tag(fa.Field), `json:"`) {
+				return
+			}
+			slt, ok := st.Field(fa.Field).Type().Underlying().(*types.Slice)
+			if !ok {
+				return
+			}
+			if _, isPtr := slt.Elem().Underlying().(*types.Pointer); !isPtr {
+				return
+			}
+			fieldName := st.Field(fa.Field).Name()
+			// guarded: a nil test of the element, or the success edge of a receiver-rejecting method, dominates b
+			guarded := func(b *ssa.BasicBlock) bool {
+				if nonNilAt(ld, b) {
+					return true
+				}
+				for _, e := range an.DominatingConds(b) {
+					for _, r := range *ld.Referrers() {
+						call, ok := r.(*ssa.Call)
+						if !ok || len(call.Call.Args) == 0 || call.Call.Args[0] != ssa.Value(ld) {
+							continue
+						}
+						if rejectsNilReceiver(an.StaticCallee(call)) && an.ErrNonNilEdgeOf(an.CondEdge{If: e.If, Branch: !e.Branch}, call) {
+							return true
+						}
+					}
+				}
+				return false
+			}
+			uses := 0
+			for _, r := range *ld.Referrers() {
+				bad := ""
+				switch y := r.(type) {
+				case *ssa.FieldAddr:
+					if y.X != ssa.Value(ld) {
+						continue
+					}
+					uses++
+					if !guarded(y.Block()) {
+						_, f, _, _ := an.FieldOf(y)
+						bad = "its field " + f + " is read at " + c.Pos(y.Pos())
+					}
+				case ssa.CallInstruction:
+					callee := an.StaticCallee(y)
+					if callee == nil || len(y.Common().Args) == 0 || y.Common().Args[0] != ssa.Value(ld) || callee.Signature.Recv() == nil {
+						continue
+					}
+					uses++
+					if receiverDerefsUnguarded(callee) && !guarded(y.Block()) {
+						bad = callee.Name() + ", which reads the receiver's fields without a nil test, is called on it at " + c.Pos(y.Pos())
+					}
+				default:
+					continue
+				}
+				examined++
+				c.Analysed(k)
+				c.Check(bad == "", rule, fmt.Sprintf("%s: use %d of an element of the decoded %s tolerates null", k, uses, fieldName), r.Pos(),
+					"a nil test of the element (or the success of a method that rejects a nil receiver) comes first",
+					"an element of "+fieldName+" is nil for a `null` in the document, and "+bad+" with no nil test before it: the document makes the process panic instead of being rejected")
+			}
+		})
+	}
+	return examined
+}
+
+// distConfigKeys returns the mapping-key paths of /repo's config.dist.yaml (the
+// documented sample configuration): keys joined by dots, list items without an
+// index.  The file uses plain block style only (no flow mappings, no block
+// scalars), which the function verifies.
+func distConfigKeys(repo string) (paths map[string]int, err error) {
+	data, err := os.ReadFile(filepath.Join(repo, "config.dist.yaml"))
+	if err != nil {
+		return nil, err
+	}
+	type level struct {
+		indent int
+		key    string
+	}
+	var stack []level
+	paths = map[string]int{}
+	keyRe := regexp.MustCompile(`^([A-Za-z0-9_]+):(\s.*)?$`)
+	for i, line := range strings.Split(string(data), "\n") {
+		trimmed := strings.TrimLeft(line, " ")
+		if trimmed == "" || strings.HasPrefix(trimmed, "#") {
+			continue
+		}
+		indent := len(line) - len(trimmed)
+		for strings.HasPrefix(trimmed, "- ") {
+			// a list item: its keys are children of the list's key, one level deeper than the dash
+			trimmed = strings.TrimLeft(trimmed[2:], " ")
+			indent = len(line) - len(trimmed)
+		}
+		m := keyRe.FindStringSubmatch(trimmed)
+		if m == nil {
+			continue // a scalar list item
+		}
+		if rest := strings.TrimSpace(m[2]); rest == "|" || rest == ">" || strings.HasPrefix(rest, "{") {
+			return nil, fmt.Errorf("config.dist.yaml:%d: block scalars and flow mappings are not supported by this reader", i+1)
+		}
+		for len(stack) > 0 && stack[len(stack)-1].indent >= indent {
+			stack = stack[:len(stack)-1]
+		}
+		stack = append(stack, level{indent, m[1]})
+		var ks []string
+		for _, l := range stack {
+			ks = append(ks, l.key)
+		}
+		paths[strings.Join(ks, ".")] = i + 1
+	}
+	return paths, nil
+}
+
+// sharedDistConfigKeys: every setting of the documented sample configuration
+// (config.dist.yaml) is read by a field: walking the configuration struct of
+// package cmd through its yaml tags reaches every key path of the file.  A key
+// that no tag names is silently ignored by the decoder, and the feature it was
+// meant to switch on keeps its zero value.  Only key paths with one of the
+// given prefixes are examined.  Returns the number of key paths examined.
+func sharedDistConfigKeys(c *an.Ctx, rule string, prefixes ...string) (examined int) {
+	paths, err := distConfigKeys(c.Prog.Repo)
+	if err != nil {
+		c.Und(rule, "config.dist.yaml", token.NoPos, "%v", err)
+		return 0
+	}
+	pkg := c.Prog.SSA.ImportedPackage("github.com/AdguardTeam/AdGuardDNS/internal/cmd")
+	if pkg == nil || pkg.Type("configuration") == nil {
+		c.Und(rule, "cmd.configuration", token.NoPos, "type not found")
+		return 0
+	}
+	known := map[string]bool{}    // key paths that a tag names
+	wildcard := map[string]bool{} // paths below which anything is accepted (maps, foreign types, custom decoders)
+	var walk func(t types.Type, path string, depth int)
+	walk = func(t types.Type, path string, depth int) {
+		if depth > 12 {
+			wildcard[path] = true
+			return
+		}
+		if n := an.NamedOf(t); n != nil {
+			// a type that decodes itself, or one from outside the repository: a leaf
+			for i := 0; i < n.NumMethods(); i++ {
+				if n.Method(i).Name() == "UnmarshalYAML" || n.Method(i).Name() == "UnmarshalText" {
+					wildcard[path] = true
+					return
+				}
+			}
+			if n.Obj().Pkg() != nil && !strings.HasPrefix(n.Obj().Pkg().Path(), "github.com/AdguardTeam/AdGuardDNS/") {
+				wildcard[path] = true
+				return
+			}
+		}
+		switch u := t.Underlying().(type) {
+		case *types.Pointer:
+			walk(u.Elem(), path, depth+1)
+		case *types.Slice:
+			walk(u.Elem(), path, depth+1)
+		case *types.Array:
+			walk(u.Elem(), path, depth+1)
+		case *types.Map:
+			wildcard[path] = true
+		case *types.Struct:
+			for i := 0; i < u.NumFields(); i++ {
+				tag := reflect.StructTag(u.Tag(i)).Get("yaml")
+				name, opts, _ := strings.Cut(tag, ",")
+				switch {
+				case name == "-":
+					continue
+				case strings.Contains(opts, "inline"):
+					walk(u.Field(i).Type(), path, depth+1)
+					continue
+				case name == "":
+					name = strings.ToLower(u.Field(i).Name())
+				}
+				p := name
+				if path != "" {
+					p = path + "." + name
+				}
+				known[p] = true
+				walk(u.Field(i).Type(), p, depth+1)
+			}
+		}
+	}
+	walk(pkg.Type("configuration").Type(), "", 0)
+	var keys []string
+	for p := range paths {
+		keys = append(keys, p)
+	}
+	sort.Strings(keys)
+	for _, p := range keys {
+		if !hasAnyPrefix(p, prefixes) {
+			continue
+		}
+		below := false
+		for w := range wildcard {
+			if p == w || strings.HasPrefix(p, w+".") {
+				below = true
+			}
+		}
+		if below && !known[p] {
+			continue
+		}
+		examined++
+		c.Check(known[p], rule, "config.dist.yaml: "+p+" is read by a field of the configuration", token.NoPos,
+			"a yaml tag names the key",
+			fmt.Sprintf("no field of cmd.configuration carries the yaml key %s of config.dist.yaml (line %d): the decoder ignores the setting and the field meant for it keeps its zero value", p, paths[p]))
+	}
+	return examined
+}
+
+// sharedAppendResultUsed: append returns the grown slice; an append whose
+// result nothing reads adds to a slice that nobody looks at again (a validation
+// error appended to the parameter instead of the returned slice is dropped, and
+// the invalid configuration is accepted).  Every append to a slice of errors
+// has a result that is used.  Returns the number of appends examined.
+func sharedAppendResultUsed(c *an.Ctx, rule string, prefixes ...string) (examined int) {
+	for _, fn := range c.AllFns {
+		if fn.Blocks == nil || c.IsTestFile(fn.Pos()) || !c.Prog.InRepo(fn) || !hasAnyPrefix(an.FnKey(fn), prefixes) {
+			continue
+		}
+		inFn := 0
+		an.Instrs(fn, func(in ssa.Instruction) {
+			call, ok := in.(*ssa.Call)
+			if !ok {
+				return
+			}
+			b, ok := call.Call.Value.(*ssa.Builtin)
+			if !ok || b.Name() != "append" {
+				return
+			}
+			sl, ok := call.Type().Underlying().(*types.Slice)
+			if !ok || sl.Elem().String() != "error" {
+				return
+			}
+			examined++
+			inFn++
+			c.Analysed(an.FnKey(fn))
+			used := false
+			for _, r := range *call.Referrers() {
+				if _, dbg := r.(*ssa.DebugRef); !dbg {
+					used = true
+				}
+			}
+			c.Check(used, rule, fmt.Sprintf("%s: the result of error append %d is used", an.FnKey(fn), inFn), call.Pos(),
+				"the grown slice is read afterwards",
+				"the result of the append at "+c.Pos(call.Pos())+" is never read: the error is added to a slice that is not the one returned (or joined), so it is dropped")
 		})
 	}
 	return examined
